@@ -11,7 +11,7 @@
    resolution; a repeated draw is byte-identical to the first. *)
 From Coq Require Import List NArith Bool FMapPositive.
 From SNT Require Export Base.Report Base.Outcome Image.KDTree Image.Octree Image.Quantize Image.Sixel
-     Image.SixelDraw Image.SixelCache Image.SrgbSpec Gen.TabSixel.
+     Image.SixelDraw Image.SixelCache Image.SixelFast Image.SrgbSpec Gen.TabSixel.
 Import ListNotations.
 Local Open Scope N_scope.
 
@@ -58,40 +58,12 @@ Definition first_draw_agrees (rows : list (list spx)) (impl : list N) : bool :=
   | _ => false
   end.
 
-Fixpoint list_eqb2_opt {A B} (f : A -> B -> bool) (x : list A) (y : list B) : bool :=
-  match x, y with
-  | [], [] => true
-  | a :: x', b :: y' => f a b && list_eqb2_opt f x' y'
-  | _, _ => false
-  end.
-
-(* picture_ok / picture_eq of Image/Sixel.v evaluated through a finite map from pixel number
-   (y * w + x) to the newest colour painted there: the same predicates, computed in
-   O(n log n) so that pictures of 50k pixels can be checked *)
-Definition pix_key (w x y : N) : positive := N.succ_pos (y * w + x).
-
-Definition pix_map (w : N) (evs : list (N * N * rgb)) : PositiveMap.t rgb :=
-  fold_left (fun m e => let '(x, y, v) := e in PositiveMap.add (pix_key w x y) v m) (rev_append evs [])
-            (PositiveMap.empty rgb).
-
-Definition picture_ok_fast (w h : N) (p : picture) : bool :=
-  (p_width p =? w) && (p_height p =? h) &&
-  forallb (ev_in w h) (p_events p) &&
-  (let m := pix_map w (p_events p) in
-   forallb (fun i => PositiveMap.mem (N.succ_pos i) m) (nrange_from 0 (N.to_nat (w * h)))) &&
-  regs_ok (p_regs p).
-
-Definition picture_eq_fast (w : N) (expected : list (list rgb)) (p : picture) : bool :=
-  let m := pix_map w (p_events p) in
-  list_eqb2_opt (fun (i : N) (v : rgb) =>
-                   match PositiveMap.find (N.succ_pos i) m with Some u => rgb_eqb u v | None => false end)
-                (nrange_from 0 (length (concat expected))) (concat expected).
-
 Definition first_draw_holds (rows : list (list spx)) (impl : list N) : bool :=
   let r6 := rows6 rows in
   let h := N.of_nat (length r6) in
   let w := match r6 with r :: _ => N.of_nat (length r) | [] => 0 end in
   if (h =? 0) || (w =? 0) then true            (* height < 6 or no columns: outside the quantifier *)
+  else if negb (img_rect rows) then false       (* a harness error *)
   else
     match sixel_decode impl with
     | None => false
